@@ -1,4 +1,55 @@
-(* C15 placeholder, replaced below *)
-From RV Require Import Model.Mapping.
-Theorem C15_placeholder : True. Proof. exact I. Qed.
-Eval cbv in "ASSUMPTIONS-OF C15_placeholder"%string. Print Assumptions C15_placeholder.
+(* C15  Relative class names resolve against the including class's directory.  Statements only;
+   proofs in Proofs/NamesFacts.v about Model/Names.v (abs_class_name). *)
+From RV Require Import Model.Names Proofs.NamesFacts.
+
+(** Every include is [dots n ++ rest] with rest not starting with a dot, in exactly one way. *)
+Theorem C15_shape_of_names :
+  forall s, let '(n, rest) := count_dots s in s = (dots n ++ rest)%string /\ no_leading_dot rest.
+Proof. exact count_dots_spec. Qed.
+Eval cbv in "ASSUMPTIONS-OF C15_shape_of_names"%string. Print Assumptions C15_shape_of_names.
+
+(** Names that do not start with a dot are absolute. *)
+Theorem C15_absolute_names_unchanged :
+  forall loc cls, no_leading_dot cls -> abs_class_name loc cls = cls.
+Proof. exact abs_absolute. Qed.
+Eval cbv in "ASSUMPTIONS-OF C15_absolute_names_unchanged"%string. Print Assumptions C15_absolute_names_unchanged.
+
+(** One dot means the including class's directory [loc], each further dot one level up. *)
+Theorem C15_relative_resolution :
+  forall loc n rest, no_leading_dot rest ->
+    abs_class_name loc (dots (S n) ++ rest) = (dotted (drop_last n loc) ++ rest)%string.
+Proof. exact abs_relative. Qed.
+Eval cbv in "ASSUMPTIONS-OF C15_relative_resolution"%string. Print Assumptions C15_relative_resolution.
+
+(** ... but never above the classes root. *)
+Theorem C15_never_above_root :
+  forall loc n rest, no_leading_dot rest -> List.length loc <= n ->
+    abs_class_name loc (dots (S n) ++ rest) = rest.
+Proof. exact abs_saturates. Qed.
+Eval cbv in "ASSUMPTIONS-OF C15_never_above_root"%string. Print Assumptions C15_never_above_root.
+
+Theorem C15_directory_is_prefix_of_location :
+  forall loc n rest, no_leading_dot rest ->
+    exists k, k <= List.length loc /\
+      abs_class_name loc (dots (S n) ++ rest) = (dotted (firstn k loc) ++ rest)%string.
+Proof. exact abs_prefix. Qed.
+Eval cbv in "ASSUMPTIONS-OF C15_directory_is_prefix_of_location"%string. Print Assumptions C15_directory_is_prefix_of_location.
+
+(** Nodes resolve relative to the root. *)
+Theorem C15_nodes_resolve_from_root :
+  forall n rest, no_leading_dot rest -> abs_class_name [] (dots (S n) ++ rest) = rest.
+Proof. exact abs_from_node. Qed.
+Eval cbv in "ASSUMPTIONS-OF C15_nodes_resolve_from_root"%string. Print Assumptions C15_nodes_resolve_from_root.
+
+(** The absolute name denotes itself: replacing a relative include by the absolute name it
+    denotes changes nothing that is looked up (the render only ever sees abs_class_name). *)
+Theorem C15_absolute_name_denotes_itself :
+  forall loc cls, Forall (fun s => s <> "" /\ no_leading_dot s) loc ->
+    abs_class_name loc (abs_class_name loc cls) = abs_class_name loc cls.
+Proof. exact abs_idempotent. Qed.
+Eval cbv in "ASSUMPTIONS-OF C15_absolute_name_denotes_itself"%string. Print Assumptions C15_absolute_name_denotes_itself.
+
+Example C15_nonvacuous :
+  abs_class_name ["a"; "b"] "..x.y" = "a.x.y" /\ abs_class_name ["a"; "b"] ".....x" = "x" /\
+  abs_class_name ["a"; "b"] ".x" = "a.b.x" /\ abs_class_name [] "..x" = "x".
+Proof. repeat split; reflexivity. Qed.
